@@ -13,50 +13,57 @@ pub open spec fn x_state(chunks: Seq<Seq<u8>>, k: int, max: int) -> XState
 pub open spec fn x_out(chunks: Seq<Seq<u8>>, k: int, max: int) -> Option<AkamaiFingerprint> {
     x_step(x_state(chunks, k - 1, max), chunks[k - 1], max).1
 }
-/// chunk k (1-based) is the first one after which the received bytes contain a complete frame
-pub open spec fn first_frame_at(chunks: Seq<Seq<u8>>, k: int, max: int) -> bool {
-    1 <= k <= chunks.len() && spec_consumed(skip_preface(cat_to(chunks, k)), max) > 0
-    && forall|j: int| 0 <= j < k ==> spec_consumed(skip_preface(#[trigger] cat_to(chunks, j)), max) == 0
-}
-pub proof fn lemma_x_before_first_frame(chunks: Seq<Seq<u8>>, k: int, max: int)
+/// Inductive invariant: as long as nothing was reported the extractor holds exactly the bytes
+/// received so far and has consumed nothing.
+pub proof fn lemma_x_not_done(chunks: Seq<Seq<u8>>, k: int, max: int)
     requires
         0 <= k <= chunks.len(),
-        forall|j: int| 0 <= j <= k ==> spec_consumed(skip_preface(#[trigger] cat_to(chunks, j)), max) == 0,
+        forall|j: int| 1 <= j <= k ==> #[trigger] x_out(chunks, j, max) is None,
     ensures
         x_state(chunks, k, max) == (XState { buf: cat_to(chunks, k), off: 0, done: false }),
-        forall|j: int| 1 <= j <= k ==> #[trigger] x_out(chunks, j, max) is None,
     decreases k,
 {
     if k > 0 {
-        lemma_x_before_first_frame(chunks, k - 1, max);
+        lemma_x_not_done(chunks, k - 1, max);
         let s = x_state(chunks, k - 1, max);
-        let b = s.buf + chunks[k - 1];
-        assert(b =~= cat_to(chunks, k));
-        assert(b.subrange(x_start(s, chunks[k - 1]), b.len() as int) =~= skip_preface(b));
+        assert(s.buf + chunks[k - 1] =~= cat_to(chunks, k));
         assert(x_out(chunks, k, max) is None);
     }
 }
-/// C17 (incremental == one-shot), for connections whose first complete frames already yield a
-/// fingerprint (RFC 7540 3.5: the client's first frame is SETTINGS): for every division of the
-/// stream into chunks, nothing is reported before chunk k, chunk k reports exactly the one-shot
-/// fingerprint of the bytes received so far, and nothing is reported afterwards.
+/// C17 (incremental == one-shot): for EVERY division of the stream into chunks, the first chunk at
+/// which the extractor reports anything reports exactly the one-shot fingerprint of the bytes
+/// received up to and including that chunk, and nothing is reported afterwards.
 pub proof fn lemma_c17_chunking(chunks: Seq<Seq<u8>>, k: int, max: int)
     requires
-        first_frame_at(chunks, k, max),
-        one_shot(cat_to(chunks, k), max) is Some,
-    ensures
+        1 <= k <= chunks.len(),
         forall|j: int| 1 <= j < k ==> #[trigger] x_out(chunks, j, max) is None,
-        x_out(chunks, k, max) == one_shot(cat_to(chunks, k), max),
-        forall|j: int| k < j <= chunks.len() ==> #[trigger] x_out(chunks, j, max) is None,
+    ensures
+        x_out(chunks, k, max) is Some ==> x_out(chunks, k, max) == one_shot(cat_to(chunks, k), max),
+        // conversely the extractor reports as soon as the one-shot fingerprint of the received bytes exists
+        one_shot(cat_to(chunks, k), max) is Some ==> x_out(chunks, k, max) == one_shot(cat_to(chunks, k), max),
+        x_out(chunks, k, max) is Some ==> forall|j: int| k < j <= chunks.len() ==> #[trigger] x_out(chunks, j, max) is None,
 {
-    lemma_x_before_first_frame(chunks, k - 1, max);
+    lemma_x_not_done(chunks, k - 1, max);
     let s = x_state(chunks, k - 1, max);
     let b = s.buf + chunks[k - 1];
     assert(b =~= cat_to(chunks, k));
     assert(b.subrange(x_start(s, chunks[k - 1]), b.len() as int) =~= skip_preface(b));
-    assert(x_state(chunks, k, max).done);
-    assert forall|j: int| k < j <= chunks.len() implies #[trigger] x_out(chunks, j, max) is None by {
-        lemma_x_done_stays(chunks, k, j - 1, max);
+    // a byte string without a complete frame has no frames, and no fingerprint comes from no frames
+    lemma_no_frames_no_fingerprint(skip_preface(b), max);
+    let fd = b.subrange(x_start(s, chunks[k - 1]), b.len() as int);
+    assert(fd =~= skip_preface(b));
+    lemma_no_frames_no_fingerprint(fd, max);
+    lemma_consumed_le(fd, max);
+    assert(one_shot(cat_to(chunks, k), max) == spec_fpv(spec_split(fd, max)));
+    if one_shot(cat_to(chunks, k), max) is Some {
+        assert(spec_consumed(fd, max) > 0);
+        assert(x_step(s, chunks[k - 1], max).1 == spec_fpv(spec_split(fd, max)));
+    }
+    if x_out(chunks, k, max) is Some {
+        assert(x_state(chunks, k, max).done);
+        assert forall|j: int| k < j <= chunks.len() implies #[trigger] x_out(chunks, j, max) is None by {
+            lemma_x_done_stays(chunks, k, j - 1, max);
+        }
     }
 }
 pub proof fn lemma_x_done_stays(chunks: Seq<Seq<u8>>, k: int, j: int, max: int)
@@ -65,4 +72,22 @@ pub proof fn lemma_x_done_stays(chunks: Seq<Seq<u8>>, k: int, j: int, max: int)
     decreases j - k,
 {
     if j > k { lemma_x_done_stays(chunks, k, j - 1, max); }
+}
+/// ASSUMED about the external extractor (it requires a SETTINGS frame): no frames, no fingerprint
+#[verifier::external_body]
+pub proof fn axiom_no_frames_no_fingerprint()
+    ensures spec_fpv(Seq::<FrameV>::empty()) is None,
+{}
+pub proof fn lemma_no_frames_no_fingerprint(d: Seq<u8>, max: int)
+    ensures spec_consumed(d, max) == 0 ==> spec_fpv(spec_split(d, max)) is None,
+{
+    axiom_no_frames_no_fingerprint();
+    if d.len() < 9 || d.len() < 9 + h2_len(d) || h2_len(d) > max {
+        assert(spec_split(d, max) =~= Seq::<FrameV>::empty());
+    } else {
+        // a complete first frame occupies at least its 9 header bytes
+        lemma_consumed_le(d.subrange(9 + h2_len(d), d.len() as int), max);
+        assert(h2_len(d) >= 0);
+        assert(spec_consumed(d, max) >= 9);
+    }
 }
